@@ -95,6 +95,12 @@ impl CBORTaggedDecodable for Envelope {
                     #[cfg(feature = "compress")]
                     tags::TAG_COMPRESSED => {
                         let compressed = Compressed::from_untagged_cbor(item.clone())?;
+                        // Only the canonical form is accepted: the integer
+                        // conversions used by the decoder wrap a negative
+                        // checksum or size around instead of refusing it.
+                        if compressed.untagged_cbor() != *item {
+                            bail!(crate::EnvelopeError::InvalidFormat);
+                        }
                         let envelope = Self::new_with_compressed(compressed)?;
                         Ok(envelope)
                     },
